@@ -471,8 +471,16 @@ func c12Clock(c *core.Ctx, pkg *packages.Package) {
 			// definition of the threshold itself (now.Add(-period).Unix()) and pass-through as a call argument are not uses
 			stmt := an.EnclosingStmt(fn.Body(), id)
 			if as, isAs := stmt.(*ast.AssignStmt); isAs {
+				definesThr := false
+				for _, l := range as.Lhs {
+					if lid, ok := l.(*ast.Ident); ok {
+						if _, isThr := thr[fn.ObjOf(lid)]; isThr {
+							definesThr = true
+						}
+					}
+				}
 				for _, r := range as.Rhs {
-					if an.InNode(r, id) && strings.Contains(fn.Canon(r), ".Add(-"+per+").Unix()") {
+					if definesThr && an.InNode(r, id) && strings.Contains(fn.Canon(r), ".Add(-"+per+").Unix()") {
 						return true
 					}
 				}
